@@ -19,9 +19,12 @@ theorem C12_one_error_callback (s : St) (ins : List In) (h : isClose (stopper in
     errhCount (clientRecv s ins).2 = serrCount (processed ins) + 1 := by
   rw [(client_facts ins s).errh, h]; rfl
 
-/-- the receive loop always ends by closing the keepalive quit channel (so the keepalive stops, C18) -/
-theorem C12_quit_closed_last (s : St) (ins : List In) :
-    (clientRecv s ins).2.getLast? = some .quitClosed :=
+/-- the receive loop always closes the keepalive quit channel, exactly once (so the keepalive stops, C18) - and BEFORE
+the loss is reported: no Disconnected event precedes it (the handler of that event reconnects at once under a
+StreamManager; the keepalive of the lost session must be told to stop by then - F-18b) -/
+theorem C12_quit_closed_before_report (s : St) (ins : List In) :
+    ((clientRecv s ins).2.filter (· == .quitClosed)).length = 1 ∧
+    discEvents ((clientRecv s ins).2.takeWhile (· != .quitClosed)) = [] :=
   (client_facts ins s).quit
 
 /-- **Every cut position**: cutting after any prefix `pre` of a history (whatever follows) reports once and routes
@@ -89,9 +92,15 @@ theorem C12_oracle_accepts_model (c : Case) (hc : c.client = true) : holdsC12 c 
     decide_eq_true_eq]
   refine ⟨⟨?_, ?_⟩, ?_⟩
   · rw [routed_filter, f.routed]; exact List.isPerm_iff.mpr (List.Perm.refl _)
-  · have := f.quit
+  · have := f.quit.1
     rw [List.any_eq_true]
-    exact ⟨.quitClosed, List.mem_of_getLast? this, rfl⟩
+    have hne : (clientRecv ⟨c.smId, c.n0⟩ c.ins).2.filter (· == .quitClosed) ≠ [] := by
+      intro e; rw [e] at this; simp at this
+    obtain ⟨a, ha⟩ := List.exists_mem_of_ne_nil _ hne
+    have hm := List.mem_filter.mp ha
+    refine ⟨a, hm.1, ?_⟩
+    have : a = .quitClosed := by simpa using hm.2
+    subst this; rfl
   · cases hcl : isClose (stopper c.ins) with
     | true => left; rfl
     | false =>
@@ -105,7 +114,7 @@ end XmppVerif.Props.C12
 
 #print axioms XmppVerif.Props.C12.C12_one_disconnected_event
 #print axioms XmppVerif.Props.C12.C12_one_error_callback
-#print axioms XmppVerif.Props.C12.C12_quit_closed_last
+#print axioms XmppVerif.Props.C12.C12_quit_closed_before_report
 #print axioms XmppVerif.Props.C12.C12_every_cut_position
 #print axioms XmppVerif.Props.C12.C12_eof
 #print axioms XmppVerif.Props.C12.C12_failed_answer_reported
